@@ -6,7 +6,7 @@ import "github.com/koykov/byteconv"
 func Bufferize(buf, p []byte) ([]byte, []byte) {
 	off := len(buf)
 	buf = append(buf, p...)
-	return buf, buf[off:]
+	return buf, buf[off:len(buf):len(buf)]
 }
 
 // BufferizeString appends s to the buffer and returns both pointers to buffer and buffered data.
